@@ -94,13 +94,17 @@ Proof.
   cbn. now rewrite !orb_false_r.
 Qed.
 
-Record opt_normal (f g : Z) (has_short : bool) (d : dflt) : Prop := {
+Definition is_dlist (d : dflt) : bool := match d with DList _ => true | _ => false end.
+(* the default kept is the default given; when none is given, a multi-valued object holds the empty list *)
+Definition default_kept (given kept : dflt) : Prop := kept = given \/ (given = DNone /\ kept = DList []).
+Record opt_normal (f g : Z) (has_short : bool) (d0 d : dflt) : Prop := {
   on_one_type : exactly_one (tb g 7) (tb g 8) (tb g 9) (tb g 10) = true;
   on_one_pref : xorb (tb g 0) (tb g 1) = true;
   on_short_pref : tb g 1 = true -> has_short = true;
   on_valueless : tb g 2 = true -> tb g 3 = false /\ tb g 4 = false /\ tb g 5 = false /\ d = DNone;
   on_valued : tb g 2 = false -> (tb g 3 || tb g 4 || tb g 5) = true;
-  on_multi : tb g 5 = true -> tb g 3 = true /\ d = DList;
+  on_multi : tb g 5 = true -> tb g 3 = true /\ is_dlist d = true;
+  on_default_kept : default_kept d0 d;
   on_adds_only : forall k, (0 <= k)%Z -> tb f k = true -> tb g k = true;
   on_keeps_rest : forall k, (0 <= k)%Z -> k <> 0%Z -> k <> 1%Z -> k <> 2%Z -> k <> 3%Z -> k <> 7%Z -> tb g k = tb f k
 }.
@@ -128,7 +132,7 @@ Qed.
 
 Lemma opt_normal_form_lemma ln sn f d o :
   mk_option ln sn f d = Ok o ->
-  opt_normal f (oo_flags o) (match oo_short o with Some _ => true | None => false end) (oo_default o).
+  opt_normal f (oo_flags o) (match oo_short o with Some _ => true | None => false end) d (oo_default o).
 Proof.
   intros H. destruct (mk_option_flags _ _ _ _ _ H) as (Hok & Hg & Hs & Hd).
   set (hs := match oo_short o with Some _ => true | None => false end) in *.
@@ -152,6 +156,9 @@ Proof.
     all: destruct (tb f 2) eqn:E2, (tb f 3) eqn:E3, (tb f 4) eqn:E4, (tb f 5) eqn:E5; cbn in *;
       try discriminate; intros Hd Hv; try discriminate;
       destruct d; cbn in Hd; inversion Hd; auto.
+  - revert Hd. unfold default_kept. destruct d; cbn [is_dnone negb]; rewrite ?orb_true_r, ?orb_false_r;
+      repeat match goal with |- context [if ?c then _ else _] => destruct c end; cbn;
+      intros Hd; inversion Hd; auto.
   - intros. now apply opt_defaults_mono.
   - intros. now apply opt_defaults_other.
 Qed.
@@ -164,8 +171,8 @@ Definition default_ok (f : Z) (d : dflt) : bool :=
   let valueless := tb f 2 || negb (tb f 3 || tb f 4 || tb f 5) in
   match d with
   | DNone => true
-  | DScalar => negb valueless && negb (tb f 5)
-  | DList => negb valueless
+  | DScalar _ => negb valueless && negb (tb f 5)
+  | DList _ => negb valueless
   end.
 
 Lemma short_ok_has n f o : validate_short_name n f = Ok o -> (match o with Some _ => true | None => false end) = has_short n.
@@ -209,6 +216,76 @@ Proof.
     unfold opt_default. repeat match goal with |- context [if ?c then _ else _] => destruct c end; destruct d; cbn; congruence.
 Qed.
 
+(* ---------------- names, at character level ---------------- *)
+(* well-formed long name / alias / argument name body: first character an ASCII letter, every character of [a-zA-Z0-9-];
+   a long name has at least two characters, a short name is exactly one ASCII letter *)
+Definition wf_name_body (s : str) : bool :=
+  match s with c :: _ => is_ascii_alpha c && forallb name_char s | [] => false end.
+Definition wf_long_name (s : str) : bool := wf_name_body s && Nat.leb 2 (length s).
+Definition wf_short_name (s : str) : bool := match s with [c] => is_ascii_alpha c | _ => false end.
+(* a long name is accepted exactly when, its "--" prefix (if any) removed, it is well-formed - and that is the name kept *)
+Lemma long_name_ok_iff_lemma s :
+  validate_long_name (NStr s) =
+  if wf_long_name (strip_prefix [DASH; DASH] s) then Ok (strip_prefix [DASH; DASH] s) else Err ValueError.
+Proof.
+  unfold validate_long_name, wf_long_name, wf_name_body, name_body_ok.
+  destruct (strip_prefix [DASH; DASH] s) as [|a [|b r]]; cbn [length Nat.leb andb]; try reflexivity.
+  - now rewrite andb_false_r.
+  - now rewrite andb_true_r.
+Qed.
+Lemma short_name_ok_iff_lemma s f :
+  validate_short_name (NStr s) f =
+  if wf_short_name (strip_prefix [DASH] s) then Ok (Some (strip_prefix [DASH] s)) else Err ValueError.
+Proof.
+  unfold validate_short_name, wf_short_name. destruct (strip_prefix [DASH] s) as [|c [|? ?]]; try reflexivity.
+Qed.
+Lemma arg_name_ok_iff_lemma s : validate_arg_name (NStr s) = if wf_name_body s then Ok s else Err ValueError.
+Proof. reflexivity. Qed.
+(* with or without the dash prefix: a well-formed name is accepted bare and prefixed, and names the same option *)
+Lemma wf_body_no_dash s : wf_name_body s = true -> starts_with [DASH] s = false.
+Proof.
+  destruct s as [|c r]; [discriminate|]. unfold wf_name_body. intros H. apply andb_prop in H as [Hc _].
+  cbn -[N.eqb]. destruct (N.eqb_spec DASH c) as [E|E]; [subst c; discriminate|reflexivity].
+Qed.
+Lemma strip_prefix_none1 s : starts_with [DASH] s = false -> strip_prefix [DASH] s = s /\ strip_prefix [DASH; DASH] s = s.
+Proof. destruct s as [|c r]; cbn -[N.eqb]; [auto|]. destruct (N.eqb DASH c); [discriminate|auto]. Qed.
+Lemma long_name_with_or_without_prefix_lemma s : wf_long_name s = true ->
+  validate_long_name (NStr s) = Ok s /\ validate_long_name (NStr (DASH :: DASH :: s)) = Ok s.
+Proof.
+  intros H. rewrite !long_name_ok_iff_lemma.
+  assert (strip_prefix [DASH; DASH] (DASH :: DASH :: s) = s) as -> by reflexivity.
+  pose proof H as H'. unfold wf_long_name in H'. apply andb_prop in H' as [Hb _].
+  destruct (strip_prefix_none1 s (wf_body_no_dash s Hb)) as [_ ->]. now rewrite H.
+Qed.
+Lemma short_name_with_or_without_prefix_lemma c f : is_ascii_alpha c = true ->
+  validate_short_name (NStr [c]) f = Ok (Some [c]) /\ validate_short_name (NStr [DASH; c]) f = Ok (Some [c]).
+Proof.
+  intros H. rewrite !short_name_ok_iff_lemma.
+  assert (strip_prefix [DASH] [DASH; c] = [c]) as -> by reflexivity.
+  assert (strip_prefix [DASH] [c] = [c]) as ->.
+  { cbn -[N.eqb]. destruct (N.eqb_spec DASH c) as [E|E]; [subst c; discriminate|reflexivity]. }
+  cbn [wf_short_name]. now rewrite H.
+Qed.
+(* an alias is read as a short one when one character is left, as a long one otherwise; "--" demands a long one *)
+Lemma alias_ok_iff_lemma a :
+  validate_alias a =
+  if starts_with [DASH; DASH] a then
+    (let s := strip_prefix [DASH; DASH] a in if wf_long_name s then Ok (false, s) else Err ValueError)
+  else
+    (let s := strip_prefix [DASH] a in
+     if wf_short_name s then Ok (true, s)
+     else if wf_name_body s && negb (Nat.eqb (length s) 1) then Ok (false, s) else Err ValueError).
+Proof.
+  unfold validate_alias, wf_long_name, wf_short_name, wf_name_body, name_body_ok.
+  destruct (starts_with [DASH; DASH] a).
+  - destruct (strip_prefix [DASH; DASH] a) as [|x [|y r]]; cbn [bind length Nat.leb andb]; try reflexivity.
+    + destruct (is_ascii_alpha x && forallb name_char [x]); reflexivity.
+    + now rewrite andb_true_r.
+  - cbn [bind]. destruct (strip_prefix [DASH] a) as [|x [|y r]]; cbn [length Nat.eqb negb andb]; try reflexivity.
+    + destruct (is_ascii_alpha x); [reflexivity|]. reflexivity.
+    + now rewrite andb_true_r.
+Qed.
+
 (* ---------------- Argument ---------------- *)
 Definition arg_step1 f := if negb (bit f 0 || bit f 1) then setbit f 1 else f.
 Definition arg_step2 f := if negb (bit f 4 || bit f 5 || bit f 6 || bit f 7) then setbit f 4 else f.
@@ -221,17 +298,18 @@ Lemma arg_step2_tb f k : (0 <= k)%Z ->
 Proof. intros. unfold arg_step2. bits_to_tb. apply tb_cond_setbit; lia. Qed.
 Ltac arg_bits := rewrite ?arg_defaults_steps, ?arg_step2_tb, ?arg_step1_tb by lia.
 
-Record arg_normal (f g : Z) (d : dflt) : Prop := {
+Record arg_normal (f g : Z) (d0 d : dflt) : Prop := {
   an_one_type : exactly_one (tb g 4) (tb g 5) (tb g 6) (tb g 7) = true;
   an_req_xor_opt : xorb (tb g 0) (tb g 1) = true;
-  an_required_no_default : tb g 0 = true -> d = (if tb g 2 then DList else DNone);
-  an_multi_list : tb g 2 = true -> d = DList;
+  an_required_no_default : tb g 0 = true -> d0 = DNone /\ d = (if tb g 2 then DList [] else DNone);
+  an_multi_list : tb g 2 = true -> is_dlist d = true;
+  an_default_kept : default_kept d0 d;
   an_adds_only : forall k, (0 <= k)%Z -> tb f k = true -> tb g k = true;
   an_keeps_rest : forall k, (0 <= k)%Z -> k <> 1%Z -> k <> 4%Z -> tb g k = tb f k
 }.
 
 Lemma arg_normal_form_lemma n f d o :
-  mk_argument n f d = Ok o -> arg_normal f (ao_flags o) (ao_default o).
+  mk_argument n f d = Ok o -> arg_normal f (ao_flags o) d (ao_default o).
 Proof.
   unfold mk_argument. destruct (validate_arg_name n); cbn [bind]; [|discriminate].
   rewrite arg_validate_iff. destruct (arg_flags_ok f) eqn:Hok; cbn [bind]; [|discriminate].
@@ -249,6 +327,9 @@ Proof.
   - revert Hd. arg_bits. cbn.
     destruct (tb f 0), (tb f 1), (tb f 2); cbn in *; try discriminate; intros Hd Hv; try discriminate;
       destruct d; cbn in Hd; inversion Hd; auto.
+  - revert Hd. unfold default_kept. destruct d; cbn [is_dnone negb]; rewrite ?orb_true_r, ?orb_false_r;
+      repeat match goal with |- context [if ?c then _ else _] => destruct c end; cbn;
+      intros Hd; inversion Hd; auto.
   - intros k Hk Hf. arg_bits. now rewrite Hf.
   - intros k Hk H1 H4. arg_bits.
     replace (k =? 4)%Z with false by (symmetry; apply Z.eqb_neq; lia).
@@ -258,8 +339,8 @@ Qed.
 Definition arg_default_ok (f : Z) (d : dflt) : bool :=
   match d with
   | DNone => true
-  | DScalar => negb (tb f 0) && negb (tb f 2)
-  | DList => negb (tb f 0)
+  | DScalar _ => negb (tb f 0) && negb (tb f 2)
+  | DList _ => negb (tb f 0)
   end.
 Lemma arg_accept_iff_lemma n f d :
   is_ok (mk_argument n f d) = is_ok (validate_arg_name n) && arg_flags_ok f && arg_default_ok f d.
@@ -370,12 +451,67 @@ Proof.
   apply N.leb_le in H1, H2. cbn. destruct (N.eqb_spec c 110); [lia|reflexivity].
 Qed.
 
-Lemma conv_int_roundtrip_lemma z nl : parse_int (VStr (dec_text z)) nl = Ok (VInt z).
+(* the text form of an integer is ASCII: CPython's digit normalisation leaves it alone, and its digit characters are the
+   digits of the number *)
+Lemma to_ascii_digit_plain s : forallb plain_num_char s = true -> map to_ascii_digit s = s.
 Proof.
-  unfold parse_int. cbn [is_null]. rewrite dec_text_not_null, andb_false_r. now rewrite int_of_str_dec_text.
+  induction s as [|c r IH]; cbn [map forallb]; [reflexivity|]. intros H. apply andb_prop in H as [Hc Hr].
+  rewrite (IH Hr). f_equal. unfold to_ascii_digit.
+  assert ((c <? 128)%N = true) as ->; [|reflexivity].
+  apply N.ltb_lt. unfold plain_num_char, is_digit in Hc. apply orb_prop in Hc as [Hc|Hc].
+  - apply andb_prop in Hc as [_ H2]. apply N.leb_le in H2. lia.
+  - apply N.eqb_eq in Hc. lia.
+Qed.
+Lemma filter_digits_all s : forallb is_digit s = true -> filter is_digit s = s.
+Proof.
+  induction s as [|c r IH]; cbn; [reflexivity|]. intros H. apply andb_prop in H as [Hc Hr]. rewrite Hc. now rewrite IH.
+Qed.
+Lemma dec_text_plain z : forallb plain_num_char (dec_text z) = true.
+Proof.
+  unfold dec_text. destruct (Z.to_int z) as [u|u]; [apply digits_plain, chars_of_uint_digits|].
+  cbn. apply digits_plain, chars_of_uint_digits.
+Qed.
+Lemma digit_chars_dec_text z : digit_chars (dec_text z) = num_digits z.
+Proof.
+  unfold digit_chars, dec_text, num_digits. destruct (Z.to_int z) as [u|u].
+  - now rewrite filter_digits_all by apply chars_of_uint_digits.
+  - cbn. now rewrite filter_digits_all by apply chars_of_uint_digits.
+Qed.
+Lemma int_of_text_dec_text z : int_text_ok z = true -> int_of_text (dec_text z) = Some z.
+Proof.
+  intros H. unfold int_of_text. rewrite to_ascii_digit_plain by apply dec_text_plain.
+  rewrite digit_chars_dec_text. unfold int_text_ok in H. rewrite H. apply int_of_str_dec_text.
+Qed.
+Lemma int_of_text_beyond z : int_text_ok z = false -> int_of_text (dec_text z) = None.
+Proof.
+  intros H. unfold int_of_text. rewrite to_ascii_digit_plain by apply dec_text_plain.
+  rewrite digit_chars_dec_text. unfold int_text_ok in H. now rewrite H.
+Qed.
+
+(* Within CPython's conversion limit (at most 4300 decimal digits) the text form of an integer converts back to it ... *)
+Lemma conv_int_roundtrip_lemma z nl : int_text_ok z = true -> parse_int (VStr (dec_text z)) nl = Ok (VInt z).
+Proof.
+  intros H. unfold parse_int. cbn [is_null]. rewrite dec_text_not_null, andb_false_r. now rewrite int_of_text_dec_text.
 Qed.
 Lemma conv_bool_roundtrip_lemma b nl :
   bind (parse_string (VBool b) nl) (fun t => parse_boolean t nl) = Ok (VBool b).
 Proof. destruct b, nl; reflexivity. Qed.
-Lemma conv_int_text_lemma z nl : parse_string (VInt z) nl = Ok (VStr (dec_text z)).
-Proof. destruct nl; reflexivity. Qed.
+Lemma conv_int_text_lemma z nl : int_text_ok z = true -> parse_string (VInt z) nl = Ok (VStr (dec_text z)).
+Proof. intros H. destruct nl; cbn; now rewrite H. Qed.
+(* ... and beyond it both directions are refused with ValueError (what CPython 3.12 does: the interpreter's limit) *)
+Lemma conv_int_beyond_limit_lemma z nl : int_text_ok z = false ->
+  parse_string (VInt z) nl = Err ValueError /\ parse_int (VStr (dec_text z)) nl = Err ValueError.
+Proof.
+  intros H. split.
+  - destruct nl; cbn; now rewrite H.
+  - unfold parse_int. cbn [is_null]. rewrite dec_text_not_null, andb_false_r. now rewrite int_of_text_beyond.
+Qed.
+(* the composed round trip of the harness's case kind 4: value -> text -> value *)
+Lemma conv_int_there_and_back_lemma z nl : int_text_ok z = true ->
+  bind (parse_string (VInt z) nl) (fun t => parse_int t nl) = Ok (VInt z).
+Proof. intros H. rewrite conv_int_text_lemma by assumption. cbn [bind]. now apply conv_int_roundtrip_lemma. Qed.
+(* float(z) of an integer is refused (ValueError) exactly from 2^1024 - 2^970 on, and is the float written like the
+   integer below that *)
+Lemma conv_float_of_int_lemma z :
+  parse_float (VInt z) false = if (2 ^ 1024 - 2 ^ 970 <=? Z.abs z)%Z then Err ValueError else Ok (VFloat (dec_text z)).
+Proof. reflexivity. Qed.
